@@ -107,6 +107,29 @@ class Report:
             self.instances.append(rec)
             self._violation(rec)
 
+    def import_premise(self, sub, dep, selectors):
+        """Copies the instances of `sub` (the report of property `dep`'s module, evaluated on the same facts) whose key starts with one of
+        `selectors` (rule ids or key prefixes) into this report as premise instances `dep/<key>`.  A violated premise is a violation of this
+        property as well (the rule concerns code on this property's own call path); recorded findings of `dep` stay `dep`'s business."""
+        n = 0
+        for r in sub.instances:
+            if not any(r["rule"] == s or r["key"].startswith(s if s.endswith(":") else s + ":") for s in selectors):
+                continue
+            n += 1
+            rec = dict(r)
+            rec["rule"] = "%s/%s" % (dep, r["rule"])
+            rec["key"] = "%s/%s" % (dep, r["key"])
+            rec["nontrivial"] = False
+            if not r["ok"] and r.get("known_finding"):
+                rec["ok"] = True
+                rec["detail"] = "recorded finding of %s (reported there)" % dep
+                rec.pop("known_finding", None)
+            self.instances.append(rec)
+            self.rules.setdefault(rec["rule"], "premise, see %s %s: %s" % (dep, r["rule"], sub.rules.get(r["rule"], "")[:300]))
+            if not rec["ok"]:
+                self._violation(rec)
+        return n
+
     def _violation(self, rec):
         k = (self.pid, rec["key"])
         if k in self.known:
